@@ -46,9 +46,11 @@ macro_rules! registry {
 registry! {
     "C01" => c01,
     "C02" => c02,
+    "C03" => c03,
     "C04" => c04,
     "C05" => c05,
     "C06" => c06,
+    "C08" => c08,
     "C09" => c09,
     "C11" => c11,
     "C12" => c12,
